@@ -142,7 +142,7 @@ async fn layout_case(out: &mut Out, groups: &[Vec<Upd>], c: &CCfg, big: &[bool],
                 out.violation(&sig, "the state recovered after the compaction differs from the state recovered before it",
                     replay(json!({"before": show_upds(b), "after": show_upds(a), "tombstones_removed": tombs})));
             } else if expect_known {
-                out.count("corpus-witness-did-not-fail");
+                out.count("corpus:witness-of-fixed-defect-passes");
             }
         }
         _ => out.violation("C13:recovery-fails-around-compaction", "recover() failed before or after a fault-free compaction", replay(json!(null))),
